@@ -1,0 +1,14 @@
+//go:build verif
+// +build verif
+
+package bfe_websocket
+
+import (
+	http "github.com/bfenetworks/bfe/bfe_http"
+)
+
+// VerifC07Serve runs the real serverConn.serve() of the websocket proxy for one handshake request
+// (hook for the out-of-tree verification harness of C07, build tag verif; add-only).
+func VerifC07Serve(s *Server, hs *http.Server, rw http.ResponseWriter, req *http.Request) {
+	s.handleConn(hs, rw, req).serve()
+}
